@@ -57,6 +57,11 @@ func matrix(c *hx.Ctx) []imgOpts {
 		base("csumseed-1k", 1024, 256, "metadata_csum_seed"),
 		base("largedir-1k", 1024, 256, "large_dir"),
 		with(base("inode512-4k", 4096, 512), func(o *imgOpts) {}),
+		// 1 KiB blocks and a block count of one above a multiple of the group size: the volume has two groups
+		// (the groups start at first_data_block = 1), superblock.blockGroupCount computes three and ext4.Read
+		// refuses the image over the checksum of a descriptor that does not exist (Props/C20 cex_groups_go_one_more);
+		// a refusal satisfies the property, it is counted in the distribution
+		with(base("oddblocks-1k", 1024, 256), func(o *imgOpts) { o.sizeKB = 16385 }),
 		// images the library is expected to refuse or to fail on without wrong data
 		base("nocsum-4k", 4096, 256, "^metadata_csum"),
 		base("nocsum-uninitbg-1k", 1024, 256, "^metadata_csum", "uninit_bg"),
@@ -366,6 +371,7 @@ func runImage(c *hx.Ctx, id string, o imgOpts, r *hx.Rng) {
 	x.geo = fsys.VerifGeometry()
 	x.checkTree()
 	x.inodeLocCases()
+	x.imgCases(x.keepImage(img))
 	if len(dev.Log) != 0 {
 		x.fail("nowrite", "-", "reading wrote to the device")
 	}
@@ -852,6 +858,7 @@ func (x *imgCtx) checkNode(nid string, n *node) {
 					if n.ref.fileACL != 0 {
 						c.Stat("xattr-block")
 					}
+					x.xattrRegimeStat(n)
 				}
 			}
 		}
